@@ -1330,6 +1330,9 @@ func traceDeltas(f *ssa.Function, s *symb) (map[int64]string, string) {
 		}
 	}
 	if iphi == nil {
+		if out, ok := traceDeltasCell(f, s); ok {
+			return out, ""
+		}
 		return nil, "no loop variable indexing the table found"
 	}
 	iSym := s.expr(iphi)
@@ -1609,11 +1612,32 @@ func rulesTraceStop(c *Ctx, r *Report) {
 		f := a.traceFn
 		where := fname(f)
 		iphi := traceLoopVar(f)
-		if iphi == nil {
+		cell := traceIndexCell(f)
+		isIdx := func(v ssa.Value) bool {
+			if iphi != nil {
+				return v == ssa.Value(iphi)
+			}
+			ld, ok := v.(*ssa.UnOp)
+			return ok && ld.Op == token.MUL && cell != nil && ld.X == ssa.Value(cell)
+		}
+		var header *ssa.BasicBlock
+		if iphi != nil {
+			header = iphi.Block()
+		} else if cell != nil {
+			// the loop whose header compares the index with 0
+			for _, b := range f.Blocks {
+				if iff, ok := lastInstr(b).(*ssa.If); ok && len(naturalLoop(b)) > 1 {
+					if bo, ok := iff.Cond.(*ssa.BinOp); ok && (isIdx(bo.X) || isIdx(bo.Y)) {
+						header = b
+					}
+				}
+			}
+		}
+		if header == nil {
 			r.undecided("STOP", where, "trace loop", c.pos(f.Pos()), "no loop variable indexing the table found")
 			continue
 		}
-		loop := naturalLoop(iphi.Block())
+		loop := naturalLoop(header)
 		isZero := func(v ssa.Value) bool {
 			k, ok := v.(*ssa.Const)
 			return ok && k.Value != nil && isZeroConst(k)
@@ -1628,7 +1652,7 @@ func rulesTraceStop(c *Ctx, r *Report) {
 				return false
 			}
 			ia, ok := fa.X.(*ssa.IndexAddr)
-			return ok && ia.X == ssa.Value(f.Params[0]) && ia.Index == ssa.Value(iphi)
+			return ok && ia.X == ssa.Value(f.Params[0]) && isIdx(ia.Index)
 		}
 		nIndex, nScore := 0, 0
 		var other []string
@@ -1664,7 +1688,7 @@ func rulesTraceStop(c *Ctx, r *Report) {
 					}
 				}
 				switch {
-				case x == ssa.Value(iphi) && isZero(y):
+				case isIdx(x) && isZero(y):
 					nIndex++
 				case spec.local && isScoreAtI(x) && isZero(y) &&
 					(k == 0 && (op == token.EQL || op == token.LEQ) || k == 1 && (op == token.NEQ || op == token.GTR)):
@@ -1676,13 +1700,131 @@ func rulesTraceStop(c *Ctx, r *Report) {
 		}
 		sort.Strings(other)
 		if spec.local {
-			r.check(len(other) == 0 && nScore > 0 && nIndex > 0, "STOP", where, "loop exits", c.pos(iphi.Pos()),
+			r.check(len(other) == 0 && nScore > 0 && nIndex > 0, "STOP", where, "loop exits", c.pos(header.Instrs[0].Pos()),
 				fmt.Sprintf("the traceback leaves its loop only when the index reaches the origin (%d) or at a cell whose score is 0 (%d): the returned steps start where the best local alignment starts", nIndex, nScore),
 				fmt.Sprintf("the traceback leaves its loop on a condition other than index-at-origin or score == 0 at the current cell (other exits: %v; score exits: %d): the steps returned need not add up to the returned score", other, nScore))
 		} else {
-			r.check(len(other) == 0 && nIndex > 0, "STOP", where, "loop exits", c.pos(iphi.Pos()),
+			r.check(len(other) == 0 && nIndex > 0, "STOP", where, "loop exits", c.pos(header.Instrs[0].Pos()),
 				"the traceback leaves its loop only when the index reaches the origin: the steps cover both sequences entirely",
 				fmt.Sprintf("the traceback can leave its loop before the origin (exits at %v): the steps need not cover both sequences", other))
 		}
 	}
+}
+
+// traceIndexCell: the table index kept in a variable whose address is taken (e.g. handed to a step helper): the
+// local *int whose loads index the table.
+func traceIndexCell(f *ssa.Function) *ssa.Alloc {
+	var cell *ssa.Alloc
+	instrs(f, func(in ssa.Instruction) {
+		ia, ok := in.(*ssa.IndexAddr)
+		if !ok || len(f.Params) == 0 || ia.X != ssa.Value(f.Params[0]) {
+			return
+		}
+		if ld, ok := ia.Index.(*ssa.UnOp); ok && ld.Op == token.MUL {
+			if al, ok := ld.X.(*ssa.Alloc); ok {
+				cell = al
+			}
+		}
+	})
+	return cell
+}
+
+// traceDeltasCell: the per-step moves when the index lives in a cell updated by a helper
+// stepBack(&i, bn, blocks[i].step): in the helper, each store `*p = *p - d` sits on the true edge of `s == L`.
+func traceDeltasCell(f *ssa.Function, s *symb) (map[int64]string, bool) {
+	cell := traceIndexCell(f)
+	if cell == nil {
+		return nil, false
+	}
+	var call *ssa.Call
+	instrs(f, func(in ssa.Instruction) {
+		if cl, ok := in.(*ssa.Call); ok && cl.Call.StaticCallee() != nil && cl.Call.StaticCallee().Blocks != nil {
+			for _, a := range cl.Call.Args {
+				if a == ssa.Value(cell) {
+					call = cl
+				}
+			}
+		}
+	})
+	if call == nil {
+		return nil, false
+	}
+	h := call.Call.StaticCallee()
+	var pI, pS ssa.Value
+	hs := newSymb(h)
+	for k, a := range call.Call.Args {
+		if k >= len(h.Params) {
+			break
+		}
+		switch {
+		case a == ssa.Value(cell):
+			pI = h.Params[k]
+		default:
+			// blocks[*i].step
+			if ld, ok := a.(*ssa.UnOp); ok && ld.Op == token.MUL {
+				if fa, ok := ld.X.(*ssa.FieldAddr); ok && fa.Field == 1 {
+					if ia, ok := fa.X.(*ssa.IndexAddr); ok && ia.X == ssa.Value(f.Params[0]) {
+						pS = h.Params[k]
+						continue
+					}
+				}
+			}
+			hs.subst[h.Params[k]] = s.expr(a)
+		}
+	}
+	if pI == nil || pS == nil {
+		return nil, false
+	}
+	out := map[int64]string{}
+	okAll := true
+	instrs(h, func(in ssa.Instruction) {
+		st, ok := in.(*ssa.Store)
+		if !ok || st.Addr != pI {
+			if ok {
+				if _, local := st.Addr.(*ssa.Alloc); !local {
+					okAll = false
+				}
+			}
+			return
+		}
+		b := st.Block()
+		if len(b.Preds) != 1 {
+			okAll = false
+			return
+		}
+		d := b.Preds[0]
+		iff, ok := lastInstr(d).(*ssa.If)
+		if !ok || d.Succs[0] != b {
+			okAll = false
+			return
+		}
+		bo, ok := iff.Cond.(*ssa.BinOp)
+		if !ok || bo.Op != token.EQL {
+			okAll = false
+			return
+		}
+		var L int64
+		found := false
+		for _, pr := range [][2]ssa.Value{{bo.X, bo.Y}, {bo.Y, bo.X}} {
+			if pr[0] == pS {
+				if k, ok := cInt(constVal(pr[1])); ok {
+					L, found = k, true
+				}
+			}
+		}
+		if !found {
+			okAll = false
+			return
+		}
+		if _, dup := out[L]; dup {
+			okAll = false
+			return
+		}
+		cur := &Sym{Op: "load", Args: []*Sym{hs.expr(pI)}}
+		out[L] = linSub(linOf(cur), linOf(hs.expr(st.Val))).String()
+	})
+	if !okAll || len(out) == 0 {
+		return nil, false
+	}
+	return out, true
 }
